@@ -223,6 +223,10 @@ pub struct ConnObs {
     pub reset: bool,
     pub server_consumed: u64,
     pub sent: u64,
+    /// the bytes the client actually sent (a reactive client may withhold some)
+    pub sent_bytes: Vec<u8>,
+    /// a reactive client gave up waiting for `100 Continue` and closed its sending side
+    pub gave_up: bool,
     /// state when the script had finished (before the runner's orderly shutdown)
     pub eof_at_script_end: bool,
     pub received_at_script_end: usize,
@@ -593,6 +597,7 @@ pub fn scenario_body(sc: Scenario, obs: SharedObs) {
                 let r = c.send(b);
                 let mut o = obs.lock().unwrap();
                 o.conns[ci].sent += b.len() as u64;
+                o.conns[ci].sent_bytes.extend_from_slice(b);
                 if let Err(e) = r {
                     o.events.push(format!("conn {} send failed: {:?}", ci, e.kind()));
                 }
@@ -629,10 +634,13 @@ pub fn scenario_body(sc: Scenario, obs: SharedObs) {
                 let c = clients[ci].as_ref().unwrap();
                 if has_100 {
                     let _ = c.send(b);
-                    obs.lock().unwrap().conns[ci].sent += b.len() as u64;
+                    let mut o = obs.lock().unwrap();
+                    o.conns[ci].sent += b.len() as u64;
+                    o.conns[ci].sent_bytes.extend_from_slice(b);
                 } else {
                     ev(&obs, format!("conn {}: no 100 seen, body withheld, closing write side", ci));
                     c.close_write();
+                    obs.lock().unwrap().conns[ci].gave_up = true;
                 }
             }
             Step::AppGo => srv.server.unblock(),
